@@ -309,6 +309,7 @@ def stress_stream(which, scale=1.0):
 
 
 import probes
+import miri
 
 PROPS = {
     "C01": {
@@ -347,7 +348,7 @@ PROPS = {
         "assumptions": [],
     },
     "C04": {
-        "streams": [seq_stream("mem", "C04"), seq_stream("clone", "C04"), seq_stream("views", "C04"), stress_stream("C05", 0.5), big_stream("C04")],
+        "streams": [seq_stream("mem", "C04"), seq_stream("clone", "C04"), seq_stream("views", "C04"), stress_stream("C05", 0.5), big_stream("C04"), miri.miri_stream("c05", "C04")],
         "trusted_base": SEQ_TRUST + ["Drop/free-exactly-once is not modelled: checked on the real code by the counting allocator of the harness"],
         "assumptions": ["use of freed memory by safe user code is C20; concurrent regions are C05"],
     },
@@ -436,7 +437,7 @@ ARENA_TRUST = ["atomics on a sequentially consistent interleaving at the granula
                "extractor's classification of atomic operations into roles (LassoModel/Source.lean AtomicRole)",
                "harness controller and hook placement (f33c273)"]
 PROPS["C05"] = {
-    "streams": [conc_stream("C05", klass=1, scen_fn=arena_scenarios, tag="a"), stress_stream("C05")],
+    "streams": [conc_stream("C05", klass=1, scen_fn=arena_scenarios, tag="a"), stress_stream("C05"), miri.miri_stream("c05", "C05")],
     "trusted_base": ARENA_TRUST + ["C11 release/acquire semantics: the theorem checks the publication rule on the extracted ordering table; the memory model itself is not formalised (thorough tier runs Miri's race detector as a search aid)"],
     "assumptions": ["strings reach other threads only through the interner's maps (C03)"],
 }
